@@ -33,7 +33,8 @@ def bounded(check):
         info = {"error": (p.stderr or p.stdout)[-400:]}
     out = dict(name="_rpm_vercmp == S (transliteration of rpmvercmp.c), reflexive, antisymmetric, transitive; rpm_version_compare and the six operators "
                     "== epoch (numeric) / version / release order, also across package subclasses", level="bounded",
-               bound="all strings over the alphabet 01ab.~^é up to length %d; 84 packages (7 epochs incl. multi-digit x 4 versions x 3 releases) + subclass "
+               bound="all strings over the alphabet 01ab.~^é up to length %d; plus ~1.25 million pairs of long structured versions (concatenations of <= 3 tokens "
+                     "from 20: multi-digit and zero-padded numbers of 10-11 digits, letters, separators, ~ ^, non-ASCII); 84 packages (7 epochs incl. multi-digit x 4 versions x 3 releases) + subclass "
                      "instances, all pairs" % maxlen, result=info, violation=(p.returncode == 1), error=(p.returncode not in (0, 1)))
     if p.returncode == 1:
         os.makedirs(os.path.join(here, "replays"), exist_ok=True)
